@@ -109,14 +109,17 @@ CLAIMED["C20"] = ("exploration",
 
 # what later mutation waves added to a check (appended to its level text)
 ADDENDA = {
-    "C01": " A quarter of the runs continue a replay from a stored position (resumed start in a database the rules admit).",
+    "C05": " A quarter of the runs have statement-level yield points live (overlay transformation T6): preemption, and in half of them descheduling, between adjacent non-blocking statements of the cache code.",
+    "C15": " Strata twostore*: a standalone input with two addresses (a second, healthy store double), the first address refuses new connections for drawn stretches; oracle 1 per store, the interval oracle over both. Strata refusal*: the store stays up and refuses writes (-OOM / -READONLY, also inside the scripts): a refused call changes nothing and nobody is told leader, and whoever is told leader has a lease stored for it.",
+    "C09": " A sixth of the transaction-heavy runs carry a source transaction with a command larger than the client's 1 MiB write buffer.",
+    "C01": " A quarter of the runs continue a replay from a stored position (resumed start in a database the rules admit). Stratum burst: 150-400 plain commands under batch limits of 129-200 commands, i.e. batches larger than one exchange window of the client.",
     "C02": " Further restart kinds: in-process restart after a connection loss, graceful stop, target-reset (the target drops the connections and stays reachable) and target-restart (it then refuses keyspace requests with -LOADING for a drawn stretch of the tool's next start: a refused position scan is an error and a retry, never 'nothing stored'); half of the runs go through the tool's whole start path (real UpdateCheckpoint, SetCheckpoint at the end of a full sync); strata with output filters, chained database maps and two databases.",
     "C06": " Disk and memory cache; epoch 1 has connection losses of its own, sources that were just started (first snapshot at offset 0), carried positions, and the fault 'source connection lost while the target cannot be reached' (the start-point request and its retries fail, the input gives up and is started again); stratum real-switch asks the real RedisOutput.",
     "C07": " The run-id stratum (real SetRunId / ResetRunId with connection resets after every request of the move, and a full resync under the id already followed) and the target-restart fault of the crash harness are part of it.",
     "C08": " Also: rule stale_run_served on the final image (an older run is not served while newer data lie beyond a gap), offsets shortly below powers of ten, alterations applied while the cache is open after a first pass of verifying readers, length alterations of sealed segments, sources without snapshot checksum; under verification 'refused' means an error, not a reader that stalls.",
     "C10": " A quarter of the incremental runs continue from a stored position; a snapshot stratum applies the rules on the full-sync path.",
     "C14": " Standalone strata also have target-reset while a unit is in flight, full resync under the same id and fail-over with +CONTINUE; cluster strata (3 nodes) add node stalls, single-connection resets, in-process restarts; the recovery-format switch runs as stratum modeswitch on histories that include those events.",
-    "C16": " Leader events while followers are served (full resync, id switch, cache restart), followers more than 10 MiB behind, channel.verifyCrc drawn per run, lock-park mode; after a leader id switch the follower's copy under the old id is checked at every quiescent point.",
+    "C16": " Leader events while followers are served (full resync, id switch, cache restart), followers more than 10 MiB behind, channel.verifyCrc drawn per run, lock-park mode; after a leader id switch the follower's copy under the old id is checked at every quiescent point. A quarter of the runs have statement-level yield points live (overlay transformation T6): preemption, and in half of them descheduling, between adjacent non-blocking statements of the replica and cache code.",
     "C17": " Also enumerated per operation: from its k-th request on the target is out of memory (denyoom commands refused, deletions and reads served). Strata gccmd* run the real cmd-level collector (also concurrent with a fail-over, or with a source shard that takes no connection), newoutput the tool's whole start path over a chain of fail-overs, modeswitch the bidirectional recovery-format switch on histories produced by the real replay (with crashes, full resyncs and fail-overs).",
     "C18": " Keys include the empty string and keys whose hash tag stands far behind byte 512; filtered strata; commands whose key position only the target knows; strata migrating-*: slots of the unit keys migrate during the replay (a run is judged up to the first error the link reports; the cluster double records commands an importing node serves under ASKING for keys the owner never redirected).",
     "C13": " Half of the incremental runs keep a minimal existence model at both sites, so that a mirrored DEL of a key that is gone at the peer is a no-op there and is left out of the transaction the peer's master propagates (omission of no-op business commands).",
